@@ -231,3 +231,18 @@ func init() {
 		NonTrivial: func(fp string) bool { return true },
 	}
 }
+
+func init() {
+	metaTable["C18"] = propMeta{Level: "exploration", CrashIsViolation: true, RaceIsViolation: true, MaxWorkers: 8,
+		Watchdog: map[string]time.Duration{"quick": 8 * time.Minute, "thorough": 90 * time.Minute},
+		Assumptions: []string{
+			"the Go race detector only reports races on executions that happen; reports vary from run to run, so stress cases are repeated with different PRNG streams",
+			"in the virtual-time bubble a harness callback may only sleep where the library holds no mutex (a goroutine waiting for a mutex is not durably blocked for testing/synctest and would freeze the clock); callbacks invoked under a lock yield the processor 300 times instead; real-time stress cases have no such restriction",
+			"'all control-flow paths of every function that takes a mutex' is covered dynamically only: lock probes (TryLock hooks) run after every step of every workload; paths no workload reaches are not judged",
+			"go1.26.8 -race -tags verif build of /repo's working tree; every other property's check also runs under -race and reports race counts in its evidence",
+		},
+		Rule: "1 of 7 cases: real-time stress for 0.5 s (thorough 1.5 s) - 6-15 UDP and 2-7 TCP scripted clients issue Allocate/Refresh/Refresh 0/CreatePermission/ChannelBind/Send/ChannelData in tight loops against lifetimes of 20-200 ms and permission/channel timeouts of 5-50 ms, 4 peers flood every relay, AllocationCount is polled, lifecycle callbacks are randomly slow, Server.Close races with traffic in half of the cases; 1 of 7: concurrent Allocate/Refresh bursts on a TCP listener with linearizability check; 5 of 7: forced schedules in virtual time - one of 7 yield points (permission-created / allocation-deleted callback, auth handler, permission handler, relay generator, listener socket write, or an exact tie) is slow across the allocation / permission / channel expiry while the triggering request is in flight and traffic keeps arriving; " +
+			"oracles: race detector reports, process survival, hang watchdog, manager lock probes, bystander liveness, cross-delivery tags, goroutines left blocked; non-trivial = distinct (kind, yield point, timer) fingerprints",
+		NonTrivial: func(fp string) bool { return true },
+	}
+}
